@@ -248,10 +248,11 @@ def api_ast_names(n: int, a: int, b: int, l: List[int]) -> None:
     hlib.done()
 
 
-REENTRANT = ["x = re(one)\ny = t(1, a)\nz = t(2, b)", "l | map(v => re(v)) | len", "re(re(one)) + t(1, a)"]
+REENTRANT = ["x = re(one)\ny = t(1, a)\nz = t(2, b)", "l | map(v => re(v)) | len", "re(re(one)) + t(1, a)",
+             "y = re(one)\nl | map(v => t(v, a)) | len", "f = v => v + one\nre(0)\nf(f(f(a)))"]
 
 
-def api_reentrant(n: int, a: int, b: int, l: List[int], inner_budget: int) -> None:
+def api_reentrant(n: int, a: int, b: int, l: List[int], inner_budget: int, inner_fails: bool = False) -> None:
     """
     pre: n >= 1 and len(l) <= 2 and inner_budget >= 1
     post: True
@@ -262,9 +263,17 @@ def api_reentrant(n: int, a: int, b: int, l: List[int], inner_budget: int) -> No
     names = {'a': a, 'b': b, 'l': list(l), 'one': 1, 't': Probe()}
     inner_nodes = [0]
 
+    inner_fails = True if inner_fails else False
+
     def re(v):
         before = api_count()
         try:
+            if inner_fails:
+                # the nested eval fails (undefined name, or its own limit) and the host swallows that
+                try:
+                    return CACHED.eval("one + nosuch", names, max_ops_evaluated=inner_budget)
+                except Exception:
+                    return 1
             return CACHED.eval("one + one", names, max_ops_evaluated=inner_budget)
         finally:
             inner_nodes[0] += api_count() - before
@@ -276,7 +285,7 @@ def api_reentrant(n: int, a: int, b: int, l: List[int], inner_budget: int) -> No
     except Exception as e:
         out = e
     own = api_count() - inner_nodes[0]          # node evaluations of the OUTER call only
-    if isinstance(out, OpsLimit) and inner_budget > 4:
+    if isinstance(out, OpsLimit) and (inner_budget > 4 or inner_fails):
         assert own == n, "outer eval: ops-limit raised at an operation other than its own N-th (re-entrant eval from a host callback)"
     elif out is None:
         assert own < n, "outer eval returned although it started N or more operations of its own (re-entrant eval from a host callback)"
